@@ -95,3 +95,120 @@ def xonsh_seeds() -> list[str]:
         with open(p, encoding="utf-8") as f:
             out.append(f.read())
     return out
+
+
+# =================================================================================================
+# G5a: sugar constructs paired with their documented translation (computed here, never by the parser)
+
+ENV_NAMES = ["X", "HOME", "PATH", "x", "_a", "A1", "path"]
+PY_NAMES = ["a", "b", "x", "y", "foo", "obj"]
+SIMPLE_WORDS = ["ls", "-l", "-la", "a/b", "--opt=val", "echo", "file.txt", "..", "a-b", "x=1", "~/d", "1", "2.5", "a.b.c", "git", "status"]
+QUOTED = ['"a b"', "'c'", '"x,y"', "'(z'", 'r"\\d"', '"]"']
+SUBPROC_FORMS = [("$(", ")", "subproc_captured"), ("$[", "]", "subproc_uncaptured"), ("!(", ")", "subproc_captured_object"), ("![", "]", "subproc_captured_hiddenobject")]
+
+
+class Sugar:
+    """text, documented translation, level ('atom' fits anywhere an atom fits, 'bool' needs a full
+    expression slot), and the class of the node that must span the construct"""
+
+    __slots__ = ("text", "trans", "level", "cls", "kind")
+
+    def __init__(self, text, trans, level, cls, kind):
+        self.text, self.trans, self.level, self.cls, self.kind = text, trans, level, cls, kind
+
+
+def sugar(rnd, d: int = 0, allow_bool: bool = True) -> Sugar:
+    kinds = ["env", "env", "envexpr", "subproc", "subproc", "search", "pstr", "help", "pfstr"]
+    if allow_bool and d == 0:
+        kinds += ["and", "or"]
+    k = rnd.choice(kinds)
+    if k == "env":
+        n = rnd.choice(ENV_NAMES)
+        return Sugar(f"${n}", f"__xonsh__.env[{n!r}]", "atom", "Subscript", "$NAME")
+    if k == "envexpr":
+        if d < 2 and rnd.random() < 0.4:
+            inner = sugar(rnd, d + 1, allow_bool=False)
+            it, tt = inner.text, inner.trans
+        else:
+            it = tt = rnd.choice(["x", "'a' + b", "f(1)", "None or 'W'", "a.b", "n[0]"])
+        sp = rnd.choice(["", "", " "])
+        return Sugar("${" + sp + it + sp + "}", f"__xonsh__.env[str({tt})]", "atom", "Subscript", "${expr}")
+    if k == "subproc":
+        o, c, fn = rnd.choice(SUBPROC_FORMS)
+        words, trans = [], []
+        for _ in range(rnd.randint(1, 4)):
+            r = rnd.random()
+            if r < 0.6:
+                w = rnd.choice(SIMPLE_WORDS)
+                words.append(w)
+                trans.append(repr(w))
+            elif r < 0.75:
+                w = rnd.choice(QUOTED)
+                words.append(w)
+                trans.append(repr(w))
+            elif r < 0.9 or d >= 2:
+                n = rnd.choice(ENV_NAMES)
+                words.append(f"${n}")
+                trans.append(f"__xonsh__.env[{n!r}]")
+            else:
+                inner = sugar_subproc(rnd, d + 1)
+                words.append(inner.text)
+                trans.append(inner.trans)
+        sep = rnd.choice([" ", " ", "  "])
+        pad = rnd.choice(["", "", " "])
+        return Sugar(o + pad + sep.join(words) + pad + c, f"__xonsh__.{fn}({', '.join(trans)})", "atom", "Call", o + ".." + c)
+    if k == "search":
+        pre = rnd.choice(["", "", "r", "g", "p", "f", "rp", "gf", "@foo", "@"])
+        body = rnd.choice([".*", "*.py", "a b", "x\\\\d+", "[a-z]", "a/b", ""])
+        t = f"{pre}`{body}`"
+        return Sugar(t, f"__xonsh__.pathsearch({t!r})", "atom", "Call", "backtick")
+    if k == "pstr":
+        pre = rnd.choice(["p", "P", "pr", "rp", "Pr", "rP", "PR", "pR"])
+        q = rnd.choice(["'", '"', "'''", '"""'])
+        body = rnd.choice(["/a/b", "~", "", "c d", "x.y", "\\\\d" if "r" in pre.lower() else "/t"])
+        rest = pre.replace("p", "").replace("P", "")
+        return Sugar(f"{pre}{q}{body}{q}", f"__xonsh__.path_literal({rest}{q}{body}{q})", "atom", "Call", "p-string")
+    if k == "pfstr":
+        pre = rnd.choice(["pf", "fp", "Pf", "pF", "FP"])
+        q = rnd.choice(["'", '"'])
+        body = rnd.choice(["/a/{b}", "{x}", "{a}/c{d}", "~/{n!r}"])
+        return Sugar(f"{pre}{q}{body}{q}", f"__xonsh__.path_literal(f{q}{body}{q})", "atom", "Call", "pf-string")
+    if k == "help":
+        n = rnd.choice(PY_NAMES)
+        form = rnd.choice(["?", "??", "?.?", "?.??"])
+        if form == "?":
+            return Sugar(f"{n}?", f"__xonsh__.help({n})", "atom", "Call", "help")
+        if form == "??":
+            return Sugar(f"{n}??", f"__xonsh__.superhelp({n})", "atom", "Call", "superhelp")
+        m = rnd.choice(PY_NAMES)
+        outer = "help" if form == "?.?" else "superhelp"
+        return Sugar(f"{n}?.{m}{'?' if outer == 'help' else '??'}", f"__xonsh__.{outer}(__xonsh__.help({n}).{m})", "atom", "Call", "help-chain")
+    # && and ||
+    op_x, op_p = ("&&", "and") if k == "and" else ("||", "or")
+
+    def operand():
+        if rnd.random() < 0.5:
+            n = rnd.choice(PY_NAMES)
+            return n, n
+        s = sugar(rnd, d + 1, allow_bool=False)
+        return s.text, s.trans
+
+    n = rnd.randint(2, 3)
+    ops = [operand() for _ in range(n)]
+    sp = rnd.choice([" ", " ", "  "])
+    return Sugar(f"{sp}{op_x}{sp}".join(o[0] for o in ops), f" {op_p} ".join(o[1] for o in ops), "bool", "BoolOp", op_x)
+
+
+def sugar_subproc(rnd, d):
+    for _ in range(20):
+        s = sugar(rnd, d, allow_bool=False)
+        if s.kind.endswith(")") or s.kind.endswith("]"):
+            return s
+    return Sugar("$(ls)", "__xonsh__.subproc_captured('ls')", "atom", "Call", "$(..)")
+
+
+STORE_TEMPLATES = [
+    "{T} = 1\n", "{T} = y = 2\n", "{T}, x = 1, 2\n", "[{T}, *y] = z\n", "(x, {T}) = z\n", "for {T} in y:\n    pass\n", "for x, {T} in y:\n    pass\n",
+    "with a as {T}:\n    pass\n", "with a as b, c as {T}:\n    pass\n", "r = [x for {T} in y]\n", "r = {{k: v for k, {T} in y}}\n", "async def f():\n    async for {T} in y:\n        pass\n",
+    "*{T}, x = z\n", "x = {T} = 3\n", "with (a as {T}):\n    pass\n",
+]
